@@ -2,7 +2,7 @@
    equate it with (ExtrOcamlBasic only; no Extract Constant). *)
 From Coq Require Extraction.
 From Coq Require Import ExtrOcamlBasic.
-From LibFtp Require Import Bytes Decimal Reply Typed Endpoint Ascii Framing FramingSpec Cmdline DataConn Client App.
+From LibFtp Require Import Bytes Decimal Reply Typed Endpoint Ascii Framing FramingSpec Cmdline DataConn Client App Observers.
 Extraction Language OCaml.
 Set Extraction Optimize.
 Extraction "model.ml"
@@ -12,6 +12,7 @@ Extraction "model.ml"
                 spec_positive spec_text
   (* Endpoint *) try_parse_pasv_reply try_parse_epsv_reply make_port_command make_eprt_command dotted
   (* Ascii *)   aread drain istart owrites sink_content to_crlf from_crlf
+  (* Observers *) notify_round
   (* Framing *) recv_n run_ops fixed_cfg pinned_cfg find_eol strip_eol render expected wf_reply
   (* Cmdline *) parse_command verb_name render_args lower all_commands
   (* Client *)  steps step init_world held data_recv data_send
